@@ -107,7 +107,7 @@ CLAIMS = {
 }
 NA = {}
 E15_PROPS = {"C07","C08","C09","C10","C11","C12","C13","C14","C15","C16","C19","C20"}
-E15_TEXT = " Also decided for the whole module as necessary conditions of this property: no comparison has the same expression on both sides; no loop that collects results from every element breaks on a per-element miss; sibling collections of one owner are indexed by the loop's own index; variables classifying the current loop element are assigned in the same iteration before they are read; the feature walkers of Any expressions give each child of a syntax node kind the same constraint (reviewed divergences excepted); no query writes memory that existed before it (ownership engine: append-alias and escaping-write rules); no copy() into a zero-length destination; no string test normalises the case of one side only; self-recursive calls pass their own parameters in their own positions; no field of a struct value is updated after the value was copied out unless it is copied out again compatibly (lost updates); no dead store to a local; an inner search flag starts false for every element of the enclosing loop; a context enriched for one body is not passed to the descent into nested bodies; a variable read after a loop records the current element only where no conditional break of that loop can follow in the same iteration; a local with a default and one conditional override in a later sibling if is not read between the two when it is read after the override."
+E15_TEXT = " Also decided for the whole module as necessary conditions of this property: no comparison has the same expression on both sides; no loop that collects results from every element breaks on a per-element miss; sibling collections of one owner are indexed by the loop's own index; variables classifying the current loop element are assigned in the same iteration before they are read; the feature walkers of Any expressions give each child of a syntax node kind the same constraint (reviewed divergences excepted); no query writes memory that existed before it (ownership engine: append-alias and escaping-write rules); no copy() into a zero-length destination; no string test normalises the case of one side only; self-recursive calls pass their own parameters in their own positions; no field of a struct value is updated after the value was copied out unless it is copied out again compatibly (lost updates); no dead store to a local; an inner search flag starts false for every element of the enclosing loop; a context enriched for one body is not passed to the descent into nested bodies; a variable read after a loop records the current element only where no conditional break of that loop can follow in the same iteration; a local with a default and one conditional override in a later sibling if is not read between the two when it is read after the override; a type read from the receiver's constraint is never the source of a cty conversion check; no inner search loop resumes at an index carried over from the previous outer iteration; every dependent-body lookup receives the parsed block (never a literal without Body)."
 ALL = ["C%02d" % i for i in range(1, 21)]
 def main():
     checks = []
@@ -116,6 +116,12 @@ def main():
         c = dict(CLAIMS[pid])
         if pid in {"C02","C18"}:
             c["text"] = c["text"] + " Also: an hclsyntax lexer/parser started at the initial position is given a whole file's bytes (never a sub-slice), and a range stripped of delimiters at both ends comes from a syntax element that always has them."
+        if pid in {"C03","C10","C13","C14","C16"}:
+            c["text"] = c["text"] + " Stable-sort clause: the sort that puts a map-ordered slice into its final order is stable, sorts indistinguishable scalars, or has a comparator that cannot tie (stated per site)."
+        if pid in {"C12","C02","C06","C08","C13"}:
+            c["text"] = c["text"] + " No method of an expression type re-points its receiver's expr/cons (the premise of the position induction)."
+        if pid == "C06":
+            c["text"] = c["text"] + " (h) the placeholder counter advances only where the counted fragment's snippet was stored."
         if pid == "C06":
             c["text"] = c["text"] + " (g) a snippet numbered from a running placeholder counter contains the nested fragments that advanced the counter (a fallback that drops them numbers from the start value)."
         if pid in {"C01","C09","C10","C14"}:
